@@ -1,5 +1,6 @@
 import EmmetProofs.MathLex
 import EmmetProofs.QRat
+import EmmetProofs.MathTotal
 /-! # C19 — math expressions evaluate to their arithmetic value (exact clause)
 
 `Sx` = syntax trees of the expression language *with their blanks*: literals `12`, `1.5`, `.5`, parentheses, unary minus and
@@ -23,6 +24,15 @@ theorem C19_arith_sub (a b : Q) (ha : a.OK) (hb : b.OK) : (a.sub b).toRat = a.to
 theorem C19_arith_mul (a b : Q) (ha : a.OK) (hb : b.OK) : (a.mul b).toRat = a.toRat * b.toRat ∧ (a.mul b).OK := Q.mul_toRat a b ha hb
 theorem C19_arith_neg (a : Q) (ha : a.OK) : a.neg.toRat = - a.toRat ∧ a.neg.OK := Q.neg_toRat a ha
 theorem C19_arith_floor (a : Q) (ha : a.OK) : a.floor.toRat = (⌊a.toRat⌋ : ℚ) ∧ a.floor.OK := Q.floor_toRat a ha
+
+/-- rejection side, for EVERY string (digits, operators, parentheses, blanks or anything else, in any order): `evaluate` ends with a
+value (nothing for an empty token list), the module's parse error (`MathExpressionException`, with or without a position) or
+`ZeroDivisionError` — never with another exception (`IndexError` from the operand stack) and never out of fuel. The proof found
+the defect repaired as F35: before it, `1+()(2)(3)` passed the parity test and popped an empty stack. -/
+theorem C19_total (s : Str) : match evaluate s with | .ok _ => True | .error e => e.documented := M.evaluate_total s
+
+example : (match evaluate ("1+()(2)(3)".toList.map Char.toNat) with | .error (.math p) => p | _ => 0) = 5 := by decide +kernel
+example : (match evaluate ("1/(2-2)".toList.map Char.toNat) with | .error .zeroDiv => true | _ => false) = true := by decide +kernel
 
 /-- non-vacuity: six divided by minus two (the input that raised IndexError before the repair) is a well-formed, well-grouped tree and evaluates to -3 -/
 def ex1 : Sx := .bin 47 [] (.num [] [54] []) (.neg [] (.num [] [50] []))
